@@ -911,7 +911,7 @@ impl Run {
             }
             self.seq_close_all();
             let mut jobs = vec![Job::Destroy];
-            for _ in 0..self.rng.gen_range(1..=3) {
+            for _ in 0..self.rng.gen_range(2..=5) {
                 jobs.push(Job::Open(self.ctx.new_handle()));
             }
             if self.rng.gen_range(0..4) == 0 {
